@@ -18,7 +18,8 @@ that ends a hold is `stop` (the harness never resumes a held worker otherwise).
 Parameters: the sampler is `keep : tid → Bool`; the routing of a trace id to a worker
 (`getWorkerIDForTrace`, a wyhash) is supplied with each span (`w`); times are nanoseconds on the
 two injected clocks.  `Cfg.fixed = false` is the code as it is; `true` is the proposed repair
-(the worker drains both queues and decides every buffered trace before it exits).
+(the worker drains both queues and decides every buffered trace before it exits); the agent loop
+has its own flag (`hcStep`).
 
 Ghost fields (`accepted`, `handed`, `discarded`, `lost`, `Tx.acc`) only record history; no
 transition reads them.
@@ -265,10 +266,14 @@ def located (s : St) : List Span :=
 
 /-! ## `Agent.healthCheck`
 
+The loop as it is now (commit 4b2120c, `fixed = true`):
 ```go
-for { select { case <-agent.ctx.Done():            // empty body: the loop goes round again
+for { select { case <-agent.ctx.Done(): return
                case <-timer.Chan(): … } }
 ```
+and as it was before that commit (`fixed = false`): the `ctx.Done()` case had an empty body, so
+the loop went round again for ever on the closed channel.  This flag is independent of
+`Cfg.fixed` (the collector's `Stop`, which is still as coded).
 -/
 inductive HcEv | done | tick deriving DecidableEq, Repr
 inductive HcSt | running | exited deriving DecidableEq, Repr
